@@ -27,17 +27,17 @@ Definition c04_mk (decl member : str) (pos : c04_pos) (tmark imark nullu : bool)
 Definition c04_typed (show : texp -> str) (decl member : str) (pos : c04_pos) (ty : texp) : c04_row :=
   c04_mk decl member pos (c04_is_xopt ty) (c04_is_xopt ty) false (show (c04_strip_xopt ty)) (show ty).
 
-(* ---- TypeScript: `key?: T` (+ ` | null`), `content?: T`, `type A = T | undefined` ---- *)
+(* ---- TypeScript: `key?: T` (+ ` | null`), `content?: T` (+ ` | null`), `type A = T` (+ ` | null`) ` | undefined` ---- *)
 Definition ts_c04_member (decl : str) (pos : c04_pos) (m : ts_member) : c04_row :=
   c04_mk decl (tm_key m) pos (tm_optional m) (tm_optional m) (tm_null_union m) (ts_show (tm_type m)) (ts_show (tm_type m)).
 Definition ts_c04_rows (d : ts_decl) : list c04_row :=
   match d with
   | TSInterface _ name _ ms => map (ts_c04_member name C04Field) ms
-  | TSAlias _ name _ ty undef => [c04_mk name [] C04Alias undef undef false (ts_show ty) (ts_show ty)]
+  | TSAlias _ name _ ty undef nullu => [c04_mk name [] C04Alias undef undef nullu (ts_show ty) (ts_show ty)]
   | TSUnion _ name _ _ _ vs =>
     flat_map (fun v => match v with
                        | TVUnit _ _ => []
-                       | TVTuple _ wire ty opt => [c04_mk name wire C04Payload opt opt false (ts_show ty) (ts_show ty)]
+                       | TVTuple _ wire ty opt nullu => [c04_mk name wire C04Payload opt opt nullu (ts_show ty) (ts_show ty)]
                        | TVStruct _ wire ms => map (ts_c04_member name C04VariantField) ms
                        end) vs
   | _ => []
